@@ -1390,7 +1390,13 @@ def sym_hash(x):
 
 
 def hashkey_eq(a, b):
-    """z3 formula: the two structural keys are equal (=> hashes equal)."""
+    """z3 formula: the two structural keys are equal (=> hashes equal).  Either side may also be a real hash
+    (an int: the hashed value held no symbolic content); two real hashes are compared as they are, a real hash
+    against a structural key cannot be decided here and is reported as unequal (the replay then settles it)."""
+    if not _isinstance(a, HashKey) or not _isinstance(b, HashKey):
+        if _isinstance(a, HashKey) or _isinstance(b, HashKey):
+            return z3.BoolVal(False)
+        return z3.BoolVal(a == b)
     ka, kb = a.items, b.items
     if ka[0] != kb[0]:
         return z3.BoolVal(False)
